@@ -22,6 +22,7 @@ from __future__ import annotations
 import copy
 import os
 import random
+import re
 import tempfile
 
 from . import e3, e3_gen
@@ -71,12 +72,27 @@ def graph_relations(graph_text: str) -> dict:
     return steps
 
 
-def _glob_matches(pattern: str, path: str) -> bool:
+def parse_nglob_line(line: str) -> tuple[str, dict]:
+    """``"pattern (name=sub name2=sub2)"`` as printed by Step.format_properties -> (pattern, subs)."""
+    line = line.strip()
+    if line.endswith(")") and " (" in line:
+        pattern, _, rest = line.rpartition(" (")
+        subs = {}
+        for item in rest[:-1].split(" "):
+            if "=" not in item:
+                return line, {}
+            name, _, sub = item.partition("=")
+            subs[name] = sub
+        return pattern, subs
+    return line, {}
+
+
+def _glob_matches(line: str, path: str) -> bool:
     from stepup.core.nglob import NamedGlob
     try:
-        ng = NamedGlob(pattern)
-        return ng._regex.fullmatch(path) is not None
-    except Exception:  # noqa: BLE001  an unparsable pattern line (with subs) matches conservatively
+        pattern, subs = parse_nglob_line(line)
+        return NamedGlob(pattern, subs)._regex.fullmatch(path) is not None
+    except Exception:  # noqa: BLE001  an unparsable pattern line matches conservatively
         return True
 
 
@@ -197,8 +213,15 @@ def plan_source_edits(rng: random.Random, proj: e3.Project, graph: dict) -> tupl
     # a new file that an existing pattern matches (glob clause of the property)
     patterns = sorted({pat for info in graph.values() for pat in info["nglobs"]})
     if patterns and rng.random() < 0.35:
-        pat = rng.choice(patterns)
-        new = pat.replace("*", f"n{rng.randint(100, 999)}")
+        pat, subs = parse_nglob_line(rng.choice(patterns))
+
+        def fill(m):
+            sub = subs.get(m.group(1), "")
+            if rng.random() < 0.3:          # sometimes a value that only ANOTHER registration accepts
+                return rng.choice(["5", "k", "Q"])
+            return {"[0-9]": rng.choice("3456789"), "[a-z]": rng.choice("cdefgh")}.get(sub, rng.choice(["5", "k"]))
+        new = re.sub(r"\$\{\*(\w+)\}", fill, pat)
+        new = new.replace("*", f"n{rng.randint(100, 999)}")
         if "*" not in new and "?" not in new and "[" not in new and "$" not in new and new not in proj.sources:
             edits.append({"op": "write", "path": new, "content": f"content of {new} v0\n"})
             edited.append(new)
@@ -248,6 +271,101 @@ def do_same_content(proj: e3.Project, root: str, rewrites: list):
 
 
 # ---------------------------------------------------------------------------------------------
+# Several glob registrations that share one pattern string but differ in their sub-patterns
+# ---------------------------------------------------------------------------------------------
+
+SHARED_GLOB_VARIANTS = ("one_plan", "static_and_glob", "two_steps", "one_plan+static_and_glob")
+
+
+def _glob_unit(pattern: str, subs: dict, prefix: str, static: bool) -> dict:
+    return {"op": "glob", "pattern": pattern, "subs": dict(subs), "static": static, "foreach": [
+        {"op": "step", "label": "cp {m} " + prefix + "{stem}.out", "inp": ["{m}"], "out": [prefix + "{stem}.out"]}]}
+
+
+def shared_glob_actions(variant: str) -> tuple[list, dict]:
+    """(actions appended to plan.py, extra scripts) for a variant.  Every variant registers one
+    pattern string at least twice with genuinely different match sets."""
+    main, scripts = [], {}
+    for part in variant.split("+"):
+        if part == "one_plan":
+            pat = "gs/part_${*key}.txt"
+            main.append(_glob_unit(pat, {"key": "[0-9]"}, "gsd_", True))
+            main.append(_glob_unit(pat, {"key": "[a-z]"}, "gsl_", True))
+        elif part == "static_and_glob":
+            pat = "gx/x_${*n}.txt"
+            main.append({"op": "static", "paths": [pat]})
+            main.append(_glob_unit(pat, {"n": "[0-9]"}, "gxd_", False))
+        elif part == "two_steps":
+            pat = "gt/part_${*key}.txt"
+            scripts["q1.py"] = [_glob_unit(pat, {"key": "[0-9]"}, "gtd_", True)]
+            scripts["q2.py"] = [_glob_unit(pat, {"key": "[a-z]"}, "gtl_", True)]
+            main.append({"op": "static", "paths": ["q1.py", "q2.py"]})
+            main.append({"op": "plan", "label": "./q1.py"})
+            main.append({"op": "plan", "label": "./q2.py"})
+        else:
+            raise ValueError(part)
+    return main, scripts
+
+
+def shared_glob_sources(variant: str) -> dict:
+    out = {}
+    for part in variant.split("+"):
+        d, stem = {"one_plan": ("gs/", "part_"), "static_and_glob": ("gx/", "x_"), "two_steps": ("gt/", "part_")}[part]
+        for key in ("1", "2", "a", "b", "Z"):
+            out[f"{d}{stem}{key}.txt"] = f"content of {d}{stem}{key}.txt v0\n"
+    return out
+
+
+def inject_shared_globs(program: dict, variant: str) -> dict:
+    program = copy.deepcopy(program)
+    main, scripts = shared_glob_actions(variant)
+    program.setdefault("scripts", {}).setdefault("plan.py", [])
+    program["scripts"]["plan.py"] = list(program["scripts"]["plan.py"]) + main
+    program["scripts"].update(scripts)
+    return program
+
+
+def add_shared_globs(rng: random.Random, project: e3.Project, history: list, variant: str):
+    """The same project and history with the shared-pattern registrations in every version of the
+    plan, their source files, and a few edits of those files spread over the phases."""
+    project = project.clone()
+    history = copy.deepcopy(history)
+    project.sources.update(shared_glob_sources(variant))
+    project.program = inject_shared_globs(project.program, variant)
+    for phase in history:
+        for edit in phase.get("edits", []):
+            if edit["op"] == "program":
+                edit["program"] = inject_shared_globs(edit["program"], variant)
+    dirs = sorted({p.split("/")[0] + "/" for p in shared_glob_sources(variant)})
+    live = dict(shared_glob_sources(variant))
+    counter = 3
+    for phase in history:
+        if rng.random() < 0.5:
+            d = rng.choice(dirs)
+            stem = "x_" if d == "gx/" else "part_"
+            kind = rng.choice(["add_digit", "add_letter", "delete", "change"])
+            mine = sorted(p for p in live if p.startswith(d))
+            if kind == "add_digit" and counter <= 9:
+                p = f"{d}{stem}{counter}.txt"
+                counter += 1
+                live[p] = f"content of {p} v0\n"
+                phase.setdefault("edits", []).append({"op": "write", "path": p, "content": live[p]})
+            elif kind == "add_letter":
+                p = f"{d}{stem}{rng.choice('cdefgh')}.txt"
+                live[p] = f"content of {p} v0\n"
+                phase.setdefault("edits", []).append({"op": "write", "path": p, "content": live[p]})
+            elif kind == "delete" and len(mine) > 2:
+                p = rng.choice(mine)
+                del live[p]
+                phase.setdefault("edits", []).append({"op": "delete", "path": p})
+            elif mine:
+                p = rng.choice(mine)
+                live[p] = live[p] + "changed\n"
+                phase.setdefault("edits", []).append({"op": "write", "path": p, "content": live[p]})
+    return project, history
+
+
+# ---------------------------------------------------------------------------------------------
 # One case
 # ---------------------------------------------------------------------------------------------
 
@@ -268,6 +386,9 @@ def run_case(item: dict) -> dict:
     else:
         project, history = e3_gen.gen_case(seed, max_phases=item.get("max_phases", 3),
                                            watch_safe=(flavour == "watch"))
+        if item.get("shared_globs"):
+            project, history = add_shared_globs(random.Random(f"c04-sg-{seed}"), project, history,
+                                                item["shared_globs"])
     report = {"seed": seed, "flavour": flavour, "failures": [], "stats": {}, "nbuilds": 0,
               "project": project.to_json(), "history": history}
     stats = report["stats"]
@@ -332,6 +453,33 @@ def _cone_check(item, rng, proj, ref, rebuild, flavour, report, count, fail, roo
              {"edited": edited, "executed": executed, "unjustified": bad})
 
 
+def _env_aba_check(item, rng, proj, ref, build, report, count, fail):
+    """A tracked variable goes A -> B -> A over two restarts: the outputs must be those built with
+    A again (commands are functions of their inputs and environment).  Returns the last result."""
+    names = sorted({v for node in e3.parse_graph(ref.graph).values() for v in node["props"].get("using_env", [])})
+    if not names:
+        return ref
+    name = rng.choice(names)
+    a = proj.env.get(name)
+    proj.env[name] = "c04_b"
+    mid = build()
+    proj.env[name] = a
+    if mid.returncode != OK_RC or mid.error:
+        return build()
+    back = build()
+    count("env:aba")
+    if back.returncode != OK_RC or back.error:
+        return back
+    stale = sorted(p for p in set(ref.files) | set(back.files) if ref.files.get(p) != back.files.get(p))
+    if stale:
+        fail("oracle:env:restart:aba-output-stale",
+             f"{name}: {a!r} -> 'c04_b' -> {a!r}; files that differ from the build with {a!r}: {stale}; "
+             f"executed on the way back: {back.executed()}", {"variable": name})
+    elif mid.executed():
+        count("env:aba:nontrivial")
+    return back
+
+
 def _run_restart(item, rng, proj, history, root, kw, report, count, fail):
     def build(schedule=None):
         report["nbuilds"] += 1
@@ -363,6 +511,8 @@ def _run_restart(item, rng, proj, history, root, kw, report, count, fail):
         for edit in phase.get("edits", []):
             e3.apply_edit(proj, root, edit)
         ref = build()
+    if ref.returncode == OK_RC and not ref.error and not item.get("skip_env") and not report["failures"]:
+        ref = _env_aba_check(item, rng, proj, ref, build, report, count, fail)
     if ref.returncode == OK_RC and not ref.error and not item.get("skip_cone"):
         _cone_check(item, rng, proj, ref, build, "restart", report, count, fail, root)
 
